@@ -352,6 +352,33 @@ func runC03(rep *Report, r *Rng, tier string) {
 			rep.Count("keys-compared")
 		}
 	}
+	if tier == "thorough" {
+		for k := 0; k < 3; k++ {
+			n := []int{70000, 100000, 140000}[k]
+			d := &DataSpec{Seed: r.U64(), NRows: n, Cols: []ColSpec{
+				{Name: hx("region"), NVals: 2, Dist: "run", Style: "ascii"}, // long runs: whole 65536-row blocks of one value
+				{Name: hx("tier"), NVals: 3, Dist: "random", Style: "ascii"},
+				{Name: hx("status"), NVals: 50, Dist: "random", Style: "ascii"},
+				{Name: hx("b"), NVals: 2, Dist: "dense", Style: "ascii"}}}
+			E := func(c, v string) *Ex { return &Ex{Op: "E", C: hx(c), V: hx(v)} }
+			N := func(x *Ex) *Ex { return &Ex{Op: "N", Kids: []*Ex{x}} }
+			A := func(xs ...*Ex) *Ex { return &Ex{Op: "A", Kids: xs} }
+			O := func(xs ...*Ex) *Ex { return &Ex{Op: "O", Kids: xs} }
+			for _, cache := range []int64{-1, 1 << 24} {
+				for _, pre := range []bool{false, true} {
+					c := &IdxCase{Data: d, Writer: "mem", Preload: pre, Cache: cache, Fresh: true, Queries: []QCase{
+						{E: A(O(E("region", "0"), E("region", "1"), E("tier", "2")), N(E("status", "7")))},
+						{E: E("region", "0")}, {E: N(E("region", "0"))}, {E: A(E("region", "0"), E("status", "7"))},
+						{E: A(E("b", "0"), O(E("tier", "0"), E("tier", "1"), E("region", "1")))},
+						{E: A(O(E("b", "0"), E("region", "1"), E("tier", "1")), N(E("tier", "0")), N(E("status", "3")))},
+						{E: E("b", "0")}, {E: E("region", "1"), GB: []string{hx("tier")}},
+						{E: O(N(E("region", "1")), A(E("tier", "1"), N(E("b", "0"))))}, {E: E("tier", "2")}, {E: E("status", "7")}}}
+					runIdxCase(o, c, rep, flagsFor("C03"))
+					rep.Count("large-index-histories")
+				}
+			}
+		}
+	}
 	rep.OracleCalls = o.n
 }
 
